@@ -30,6 +30,14 @@ def make_case_objects(t, k, sim, rng, ids=None, resample=None, cell_perm=None, s
     cells = [list(c) for c in t["cells"]]
     desc, info = tissue.instance_desc(pos, cells, k, sim, id_offset=ids.get("offset", 0), id_stride=ids.get("stride", 1),
                                       interior_pts=interior, shuffle_rng=ids.get("shuffle"), vperm_rng=ids.get("vperm"))
+    ex = getattr(sim, "exact_axis", None)
+    if ex is not None:
+        (ea, eb), first, ci = ex
+        pts = info["interior"][(ea, eb)]
+        junction = info["newid"][ea if first else eb]
+        nbv = (pts[0] if first else pts[-1]) if pts else info["newid"][eb if first else ea]
+        at = {v[0]: i for i, v in enumerate(desc["V"])}
+        desc["V"][at[nbv]][ci] = desc["V"][at[junction]][ci]
     if snap_seed is not None and k >= 1:
         # make some end segments EXACTLY axis aligned (dx or dy == 0.0): the first / last interior point of an interface
         # takes the junction's x or y. Decided per physical interface end, so two runs of a pair get the same geometry.
@@ -446,6 +454,29 @@ def make_tissue(spec, rng):
     raise ValueError(src)
 
 
+def align_similarity(t, k, sim, rng):
+    """the same similarity with its rotation chosen so that the first segment of one interface at a used junction is
+    EXACTLY parallel to a coordinate axis (a vanishing chord component; the residual 1e-16 of the floating rotation is
+    removed in make_case_objects by copying the junction's coordinate), everything else generic"""
+    import cmath
+    internal, junctions = truth_structure(t)
+    cands = [(a, b) for (a, b) in sorted(t["edges"]) if a in junctions or b in junctions]
+    if not cands:
+        return sim
+    a, b = rng.choice(cands)
+    first = a in junctions if not (a in junctions and b in junctions) else rng.random() < 0.5
+    pts = eq.interior_points(t, k)[(a, b)]
+    end = a if first else b
+    nb = complex(*(pts[0] if first else pts[-1])) if pts else t["pos"][b if first else a]
+    d = nb - t["pos"][end]
+    if sim.reflect:
+        d = d.conjugate()
+    q = rng.choice([0, 1, 2, 3])
+    new = tissue.Similarity(q * math.pi / 2 - cmath.phase(d), sim.scale, sim.tx, sim.ty, reflect=sim.reflect)
+    new.exact_axis = ((a, b), first, 2 if q % 2 == 0 else 1)       # V row [id, x, y]: chord along x -> equal y
+    return new
+
+
 def make_similarity(spec, rng):
     s = spec.get("sim")
     if s is None:
@@ -478,12 +509,14 @@ def run_spec(args):
         except PreStepRaised as exc:
             return case, [{"case": case, "ev": "Skip", "reason": str(exc)[:300]}]
     t = make_tissue(spec, rng)
-    sim = make_similarity(spec, rng)
+    sim0 = make_similarity(spec, rng)
+    sim = align_similarity(t, spec.get("k", 3), sim0, rng) if spec.get("align") else sim0
     if spec.get("require_conditioned"):
         for _ in range(12):
             if tension_tolerance(t, sim) is not None:
                 break
             t = make_tissue(spec, rng)
+            sim = align_similarity(t, spec.get("k", 3), sim0, rng) if spec.get("align") else sim0
     ids = spec.get("ids")
     if ids:
         ids = dict(ids, shuffle=random.Random(spec.get("seed", 0) + 1) if ids.get("shuffle") else None,
@@ -575,8 +608,11 @@ def dynamic_events(case, spec, rng, units=(1.0, 1.0), phys_run=None):
         for r in t["edges"].values():
             r["T"] = rng.uniform(0.4, 1.8)
         normalise_tensions(t)
+        if spec.get("align"):
+            sim = align_similarity(t, spec.get("k", 3), sim, rng)
         if tension_tolerance(t, sim) is not None or spec["tissue"]["kind"] != "equilibrium":
             break
+    sim_plain = tissue.Similarity(sim.theta, sim.scale, sim.tx, sim.ty, reflect=sim.reflect)   # without the exact-axis request
     k = spec.get("k", 3)
     nframes = spec.get("nframes", 3)
     tau = spec.get("when", 0)
@@ -617,7 +653,7 @@ def dynamic_events(case, spec, rng, units=(1.0, 1.0), phys_run=None):
         ids = {"offset": rng.choice([0, 5, 40]), "stride": rng.choice([1, 2, 3]), "shuffle": random.Random(rng.randrange(10 ** 9))}
         if rng.random() < 0.6:
             ids["vperm"] = random.Random(rng.randrange(10 ** 9))
-        o = make_case_objects(frames_t[f], k, sim, rng, ids=ids)
+        o = make_case_objects(frames_t[f], k, sim if f == tau else sim_plain, rng, ids=ids)
         if f in (tau, partner) and rng.random() < 0.4:
             # "independent of how each frame numbers its vertices" includes the number 0 landing on a used junction
             for _try in range(40):
@@ -625,7 +661,7 @@ def dynamic_events(case, spec, rng, units=(1.0, 1.0), phys_run=None):
                     break
                 ids = {"offset": 0, "stride": ids["stride"], "shuffle": random.Random(rng.randrange(10 ** 9)),
                        "vperm": random.Random(rng.randrange(10 ** 9))}
-                o = make_case_objects(frames_t[f], k, sim, rng, ids=ids)
+                o = make_case_objects(frames_t[f], k, sim if f == tau else sim_plain, rng, ids=ids)
         objs[f] = o
         frames[f] = fs.frames.Frame(f, o["vertices"], o["edges"], o["cells"], time=stamps[f])
     evs = []
